@@ -39,6 +39,7 @@ type Obl struct {
 	Src       string
 	Bounded   bool
 	Trivial   bool
+	Candidate bool // the model comes from a weakened (quantifier-free) query: a candidate until replayed
 	// results
 	Status  string // discharged, failed, unknown, cover-ok, cover-vacuous
 	Solver  string
@@ -75,6 +76,7 @@ type Exec struct {
 	TopRets     []edgeIn
 	TopRetVals  []Val
 	UseBodyOf   []string
+	Partial     map[string]bool
 	Fixed       map[string]Val // unit inputs fixed to constants (clause `each`)
 	UsedLemmas  []string
 	Hidden      map[string]bool
@@ -545,7 +547,20 @@ func (fx *fnExec) havocLoop(lp *Loop, st *State, spec *LoopSpec) {
 		ks = append(ks, k)
 	}
 	sort.Strings(ks)
+	if keys[havocAllKey] {
+		// a callee in the loop may change the whole heap
+		except := map[string]bool{}
+		for _, k := range ks {
+			if strings.HasPrefix(k, "!") {
+				except[k[1:]] = true
+			}
+		}
+		fx.havocAll(st, except, fmt.Sprintf("L%d", lp.Ordinal))
+	}
 	for _, k := range ks {
+		if k == havocAllKey || strings.HasPrefix(k, "!") {
+			continue
+		}
 		if strings.HasPrefix(k, "map:") {
 			for hk, srt := range heapSorts {
 				if strings.HasPrefix(hk, "M") && strings.Contains(hk, k[4:]) {
@@ -799,6 +814,14 @@ func (fx *fnExec) countExitEdges(lp *Loop) int {
 func (fx *fnExec) oblige(name, kind string, st *State, goal *Term, pos token.Pos, src string) {
 	ex := fx.ex
 	if st.Reach.IsFalse() || ex.specDepth > 0 {
+		return
+	}
+	if ex.Partial[kind] || ex.Partial[kind+"."+src] {
+		// partial contract: this kind of obligation is assumed, not checked (listed in the evidence)
+		ex.Dropped["partial: "+kind+" obligations of "+ex.Unit+" are assumed, not checked"] = true
+		if kind == "nopanic" || kind == "pre" || kind == "assertcall" {
+			ex.assume(st, goal)
+		}
 		return
 	}
 	full := fx.prefix + "#" + name
@@ -1203,5 +1226,50 @@ func (ex *Exec) assumeHeapWF(st *State, v Val) {
 			continue
 		}
 		ex.assume(st, Or(Eq(r, IntC(0)), Select(a, r)))
+		// a pointer read from a part of the heap that is still the entry heap, out of an object that
+		// existed at entry, points to an object that existed at entry (the entry heap is closed)
+		a0 := initialHeap(allocKey, allocSort)
+		if a0 != a {
+			var leaves func(t *Term, guard *Term, depth int)
+			leaves = func(t *Term, guard *Term, depth int) {
+				if t.Op == "ite" && depth < 4 {
+					leaves(t.Args[1], And(guard, t.Args[0]), depth+1)
+					leaves(t.Args[2], And(guard, Not(t.Args[0])), depth+1)
+					return
+				}
+				if t.Op == "select" && t.Args[0].Op == "store" && depth < 4 {
+					// select(store(A, i, v), j): A[j] when i != j, v otherwise
+					sto := t.Args[0]
+					leaves(Select(sto.Args[0], t.Args[1]), And(guard, Neq(sto.Args[1], t.Args[1])), depth+1)
+					leaves(sto.Args[2], And(guard, Eq(sto.Args[1], t.Args[1])), depth+1)
+					return
+				}
+				obj, ok := entryHeapRead(t)
+				if !ok {
+					return
+				}
+				// an embedded struct/array lives and dies with its enclosing object
+				for obj.Op == "app" && strings.HasPrefix(obj.Name, "$emb:") {
+					obj = obj.Args[0]
+				}
+				ex.assume(st, Implies(And(guard, Select(a0, obj)), Or(Eq(t, IntC(0)), Select(a0, t))))
+			}
+			leaves(r, True, 0)
+		}
 	}
+}
+
+// entryHeapRead recognises select(H0:key, obj) and select(select(H0:key, obj), idx).
+func entryHeapRead(r *Term) (*Term, bool) {
+	if r.Op != "select" {
+		return nil, false
+	}
+	arr := r.Args[0]
+	if arr.Op == "var" && strings.HasPrefix(arr.Name, "H0:") {
+		return r.Args[1], true
+	}
+	if arr.Op == "select" && arr.Args[0].Op == "var" && strings.HasPrefix(arr.Args[0].Name, "H0:") {
+		return arr.Args[1], true
+	}
+	return nil, false
 }
